@@ -489,6 +489,7 @@ func c08(c *core.Check) {
 	c08CSSWideIsWhole(c)
 	c08FontFaceDescriptors(c)
 	c08BorderSideColours(c)
+	c08ListStyleNone(c)
 	r12 := c.Rule("R12", "a malformed declaration followed by a nested rule: the tokens of the failed declaration, the ';' that ended it and the rest of the block are all handed back before the block is re-read as rules (shared with C06.R6)", 3)
 	c06RewindRule(c, r12)
 
